@@ -24,9 +24,17 @@ enum Layout {
     SmallSegmentsReopened,
 }
 
-fn gen_history(rng: &mut Rng, cfg: &StoreCfg, n: usize) -> (Vec<MTxn>, Model, Gen) {
+fn gen_history(rng: &mut Rng, cfg: &StoreCfg, n: usize, sparse: bool) -> (Vec<MTxn>, Model, Gen) {
     let mut model = Model::new(cfg.buckets);
     let mut g = Gen::new(rng, cfg, 2, 2);
+    if sparse {
+        // hundreds of partitions, only a handful of them ever written
+        let mut keep = Vec::new();
+        for _ in 0..(3 + rng.usize_below(3)) {
+            keep.push(g.keys[rng.usize_below(g.keys.len())]);
+        }
+        g.keys = keep;
+    }
     let mut txns = Vec::new();
     let opts = GenOpts { wrong_pct: 0, max_events: 6, big_payload_pct: 0, max_payload: 0, key_conflict_pct: 0 };
     while txns.len() < n {
@@ -200,12 +208,13 @@ async fn run_queries(rep: &mut Report, db: &Database, model: &Model, layout: Lay
 async fn run_case(rep: &mut Report, args: &Args, case_seed: u64, full: bool) {
     let mut rng = Rng::new(case_seed);
     let buckets = *rng.pick(&[1u16, 2]);
+    let sparse = rng.chance(1, 4);
     let base = StoreCfg {
         segment_size: 128 * 1024,
         buckets,
         writer_threads: 1,
         reader_threads: 2,
-        partitions: buckets * (1 + rng.below(3) as u16),
+        partitions: if sparse { buckets * (200 + rng.below(300) as u16) } else { buckets * (1 + rng.below(3) as u16) },
         compression: rng.chance(1, 2),
         sync_interval_ms: 1,
         sync_idle_ms: 5,
@@ -213,7 +222,7 @@ async fn run_case(rep: &mut Report, args: &Args, case_seed: u64, full: bool) {
         min_sync_bytes: 4096,
     };
     let n_txns = 50 + rng.usize_below(70);
-    let (txns, model, _g) = gen_history(&mut rng, &base, n_txns);
+    let (txns, model, _g) = gen_history(&mut rng, &base, n_txns, sparse);
     let case = json!({"case_seed": case_seed, "store": base.to_json(), "transactions": txns.len(), "events": model.total_events()});
     for layout in [Layout::OneLargeSegment, Layout::SmallSegments, Layout::SmallSegmentsReopened] {
         if !opens_left() {
@@ -260,6 +269,38 @@ async fn run_case(rep: &mut Report, args: &Args, case_seed: u64, full: bool) {
             let mut qrng = Rng::new(case_seed ^ 0x77); // same queries in every layout
             run_queries(rep, &db, &model, layout, &mut qrng, &case, full).await;
             rep.count("layouts_queried", 1);
+            // partitions and streams that were never written must be empty in every layout (sealed-segment
+            // indexes are minimal perfect hashes: a lookup of an absent key has to be recognised as absent)
+            let mut absent = 0u64;
+            for pid in 0..base.partitions {
+                if model.partitions.get(&pid).map(|v| !v.is_empty()).unwrap_or(false) { continue; }
+                absent += 1;
+                rep.evaluations += 1;
+                let witness = json!({"case": case, "layout": format!("{layout:?}"), "subject": format!("absent partition {pid}")});
+                match scan_partition(&db, pid, 0, IterDirection::Forward, Consume::Batch(50)).await {
+                    Ok(g) if g.iter().all(|x| x.is_empty()) => {}
+                    Ok(g) => rep.violation("C03:partition:forward:extra:never-written-partition", format!("partition {pid} was never written but its scan returns {} events ({layout:?})", g.iter().map(|x| x.len()).sum::<usize>()), witness.clone()),
+                    Err(e) => rep.violation("C03:partition:forward:error:never-written-partition", format!("scan of the never-written partition {pid} failed ({layout:?}): {e}"), witness.clone()),
+                }
+                match db.get_partition_sequence(pid).await {
+                    Ok(None) => {}
+                    Ok(Some(x)) => rep.violation("C03:get_partition_sequence:extra:never-written-partition", format!("partition {pid} was never written but get_partition_sequence reports {} ({layout:?})", x.sequence), witness),
+                    Err(e) => rep.violation("C03:get_partition_sequence:error:never-written-partition", format!("get_partition_sequence of the never-written partition {pid} failed ({layout:?}): {e}"), witness),
+                }
+            }
+            rep.count("never_written_partitions_probed", absent);
+            if let Some((pid, _)) = model.partitions.iter().next() {
+                for i in 0..100u32 {
+                    let name = format!("never-written-{i}-{}", case_seed % 1000);
+                    rep.evaluations += 1;
+                    match scan_stream(&db, *pid, &name, 0, IterDirection::Forward, Consume::Batch(50)).await {
+                        Ok(g) if g.iter().all(|x| x.is_empty()) => {}
+                        Ok(g) => rep.violation("C03:stream:forward:extra:never-written-stream", format!("stream {name} was never written but its scan returns {} events ({layout:?})", g.iter().map(|x| x.len()).sum::<usize>()), json!({"case": case, "layout": format!("{layout:?}"), "subject": name})),
+                        Err(e) => rep.violation("C03:stream:forward:error:never-written-stream", format!("scan of the never-written stream {name} failed ({layout:?}): {e}"), json!({"case": case, "layout": format!("{layout:?}"), "subject": name})),
+                    }
+                }
+                rep.count("never_written_streams_probed", 100);
+            }
         }
         db.shutdown().await;
         drop(db);
